@@ -62,7 +62,10 @@ func runIDs(x *X) {
 	var backendSaw seen
 	_ = backendSaw
 	supplied := []string{ // (leading/trailing blanks cannot reach a handler: net/http's header parser trims them)
-		"", "abc-123", "in  ner", strings.Repeat("L", 300), "ünï-cödé", "a b;c=d", "0"}
+		"", "abc-123", "in  ner", strings.Repeat("L", 300), "ünï-cödé", "a b;c=d", "0",
+		// bytes that are legal in a field value and not "printable text": Latin-1, invalid UTF-8, an inner tab,
+		// no-break and zero-width spaces
+		"caf\xe9-42", "\xff\xfe\x80", "tab\tinside", "nb\u00a0sp", "zw\u200bsp"}
 	type result struct {
 		inReq, inTrace   string // what the client sent
 		hReq, hTrace     string // what the inner handler saw on the request
